@@ -1,7 +1,8 @@
 (* C15Theorems.v — the property theorems of C15 and nothing else. *)
 From V.lib Require Import Base.
 From V.c13 Require Import C13Spec C13Model.
-From V.c15 Require Import C15Model C15Spec C15BitProofs C15AvcSpsProofs C15AvcVuiProofs C15AvcPpsProofs C15Examples.
+From V.c15 Require Import C15Model C15Spec C15BitProofs C15AvcSpsProofs C15AvcVuiProofs C15AvcPpsProofs C15AvcSliceProofs
+  C15Examples.
 
 (* AVC SPS: for every field assignment accepted by sps_valid (profiles with and without the
    chroma / bit-depth / scaling-list block, scaling lists, poc types 0-2, frame/field, cropping for
@@ -52,3 +53,48 @@ Example C15_avc_pps_hyps :
   pps_valid 3 ex_pps = true /\ pps_slice_group_id (expected_pps ex_pps) = [0; 2; 1; 1; 0]
   /\ length (pps_pic_scaling_lists (expected_pps ex_pps)) = 12%nat.
 Proof. vm_compute. repeat split. Qed.
+
+(* AVC slice header (repaired text).  For every field assignment accepted by slice_valid: slice types 0..9,
+   nal_unit_type 1 and 5, every nal_ref_idc, field/frame, poc types 0-2, override of the active
+   reference counts, ref_pic_list_modification loops for both lists, pred_weight_table for every
+   ChromaArrayType, dec_ref_pic_marking incl. the memory_management_control_operation loop, CABAC,
+   SP/SI, deblocking; slice_data of any length behind the header.  spsmap / ppsmap are ARBITRARY maps
+   that hold, under the slice's pic_parameter_set_id and under that PPS's seq_parameter_set_id (not
+   the PPS's own id), what the parameter-set parsers returned for the PPS / SPS NAL units: the parser
+   returns the coded values, SeqParamID = the PPS's seq_parameter_set_id and Size = number of bytes
+   of the escaped NAL unit that hold the header.  cm is the SPS map the PPS was parsed with (it is
+   consulted for the PPS's scaling lists only).  Guard sl_has_fmo_cycle pp = false: see
+   C15_avc_slice_fmo_refuted (known finding F7). *)
+Theorem C15_avc_slice : forall spsmap ppsmap sp pp v beyond cm s p,
+  sps_valid sp = true -> pps_valid (eff_chroma_format_idc sp) pp = true -> slice_valid sp pp v = true ->
+  sl_has_fmo_cycle pp = false ->
+  (pps_has_tail pp && pic_scaling_matrix_present_flag pp = true ->
+   cm (pps_seq_parameter_set_id pp) = Some (eff_chroma_format_idc sp)) ->
+  parse_sps_br beyond (nalu_sps sp) = Ok s -> parse_pps_br cm (nalu_pps pp) = Ok p ->
+  ppsmap (sl_pic_parameter_set_id v) = Some p -> spsmap (pps_seq_parameter_set_id pp) = Some s ->
+  parse_slice_br spsmap ppsmap (nalu_slice sp pp v) = Ok (expected_slice sp pp v).
+Proof. exact avc_slice. Qed.
+Print Assumptions C15_avc_slice.
+(* B slice, pps id 2 <> sps id 7, override, rplm on both lists, weights, four marking operations *)
+Example C15_avc_slice_hyps :
+  sps_valid ex_sl_sps = true /\ pps_valid (eff_chroma_format_idc ex_sl_sps) ex_sl_pps = true
+  /\ slice_valid ex_sl_sps ex_sl_pps ex_slice = true /\ sl_has_fmo_cycle ex_sl_pps = false
+  /\ sh_pic_param_id (expected_slice ex_sl_sps ex_sl_pps ex_slice) = 2
+  /\ sh_seq_param_id (expected_slice ex_sl_sps ex_sl_pps ex_slice) = 7
+  /\ sh_long_term_pic_num (expected_slice ex_sl_sps ex_sl_pps ex_slice) = 9
+  /\ sh_size (expected_slice ex_sl_sps ex_sl_pps ex_slice) = 30
+  /\ lenN (nalu_slice ex_sl_sps ex_sl_pps ex_slice) = 31.
+Proof. vm_compute. repeat split. Qed.
+
+(* slice_group_change_cycle: the parser derives its width from pps.PicSizeInMapUnitsMinus1, which is
+   not coded for slice-group map types 3..5 *)
+Theorem C15_avc_slice_fmo_refuted :
+  exists sp pp v s p,
+    sps_valid sp = true /\ pps_valid (eff_chroma_format_idc sp) pp = true /\ slice_valid sp pp v = true
+    /\ parse_sps_br true (nalu_sps sp) = Ok s /\ parse_pps_br (fun _ => None) (nalu_pps pp) = Ok p
+    /\ parse_slice_br (fun _ => Some s) (fun _ => Some p) (nalu_slice sp pp v) <> Ok (expected_slice sp pp v).
+Proof.
+  exists ex_fmo_sps, ex_fmo_pps, ex_fmo_slice, (expected_sps true ex_fmo_sps), (expected_pps ex_fmo_pps).
+  repeat split; try (vm_compute; reflexivity). vm_compute. discriminate.
+Qed.
+Print Assumptions C15_avc_slice_fmo_refuted.
